@@ -80,6 +80,7 @@ type VC struct {
 	inlined         map[string]bool
 	allocTerm       string // bound for every make in the function under contract ("" = none)
 	rootOlds        []Val  // values of the contract's old bindings (entry state)
+	rootLogicals    []Val  // the contract's logical variables
 	knownLen        map[string]int // slice terms with a small constant length
 	readMemo        map[string]string
 	rootRets        []retInfo // the return sites of the function under contract (unmerged)
@@ -92,13 +93,19 @@ type VC struct {
 	qvars           [][2]string // bound variables in scope (name, sort)
 	qrepl           [][2]string // textual rewrites applied to terms built under the current quantifier
 	qcur            string      // innermost bound variable whose first slice index is being looked for
-	qoff            string      // offset of the first slice indexed by qcur
+	qoff            string      // (unused)
+	qcands          []string          // bound variables whose first slice index is being looked for
+	qoffs           map[string]string // bound variable -> offset of the first slice it indexes
 	specDefs        map[*ssa.Function]*specDef
 	specTrack       []*specTracker
+	qdefMemo        map[string]string
+	defBodies       map[string][2]string // parameterised definitions: name -> (parameter list, body)
+	defScanned      int
 	quantDefs       map[string]bool
 	quantScanned    int
 	entryAx         map[string]bool
 	frameAxQ        map[string]bool
+	freshBase       string // while a callee's postconditions are evaluated: the allocation counter at the call
 	clauseNext      string // allocation counter of the state a contract clause is being evaluated in
 	frame           struct {
 		active bool
@@ -166,13 +173,24 @@ func (vc *VC) def(sort, hint, term string) string {
 				as = append(as, qv[0])
 			}
 		}
+		// the same term gets the same name (terms built twice stay syntactically equal)
+		mk := sort + "|" + strings.Join(ps, " ") + "|" + term
+		if vc.qdefMemo == nil {
+			vc.qdefMemo = map[string]string{}
+		}
+		if r, ok := vc.qdefMemo[mk]; ok {
+			return r
+		}
 		n := vc.name(hint)
 		if len(ps) == 0 {
 			vc.emit(fmt.Sprintf("(define-fun %s () %s %s)", n, sort, term))
+			vc.qdefMemo[mk] = n
 			return n
 		}
 		vc.emit(fmt.Sprintf("(define-fun %s (%s) %s %s)", n, strings.Join(ps, " "), sort, term))
-		return "(" + n + " " + strings.Join(as, " ") + ")"
+		r := "(" + n + " " + strings.Join(as, " ") + ")"
+		vc.qdefMemo[mk] = r
+		return r
 	}
 	n := vc.name(hint)
 	vc.emit(fmt.Sprintf("(define-fun %s () %s %s)", n, sort, term))
